@@ -82,6 +82,8 @@ inductive Stop where
   | panic | diverge | unmodelled | enum | fuel
   deriving DecidableEq, Inhabited, Repr
 
+deriving instance DecidableEq for Except
+
 /-- heap-state computations; the heap survives a `Stop` (what was written before a panic stays) -/
 abbrev M (α : Type) := Heap → Except Stop α × Heap
 
